@@ -12,7 +12,6 @@ type RegionsCase struct{}
 func (t *RegionsCase) size() int      { return 0 }
 func (t *RegionsCase) String() string { return "" }
 
-func execC06(c *Case) *Verdict { return nil }
 func execC18(c *Case) *Verdict { return nil }
 func execC15(c *Case) *Verdict { return nil }
 func execC16(c *Case) *Verdict { return nil }
@@ -20,7 +19,6 @@ func execC16(c *Case) *Verdict { return nil }
 func shrinkTrie(c *Case, try func(*Case) bool) bool    { return false }
 func shrinkRegions(c *Case, try func(*Case) bool) bool { return false }
 
-func RunC06(ctx *core.Ctx, r *core.Rng) {}
 func RunC18(ctx *core.Ctx, r *core.Rng) {}
 func RunC15(ctx *core.Ctx, r *core.Rng) {}
 func RunC16(ctx *core.Ctx, r *core.Rng) {}
